@@ -578,21 +578,24 @@ Record cstate : Type := mkc {
   c_next : Z;                 (* _next_pktid *)
   c_count : Z;                (* number of requests issued so far = serial of the next waiter *)
   c_reqs : list (Z * Z);      (* _requests: id -> waiter, in insertion order *)
-  c_open : bool               (* reader/writer still set *)
+  c_open : bool;              (* reader/writer still set *)
+  c_cancelled : list Z        (* waiters whose future was cancelled while still in _requests *)
 }.
-Definition c_init : cstate := mkc 0 0 [] true.
+Definition c_init : cstate := mkc 0 0 [] true [].
 
 Inductive cev : Type :=
 | CSend                                  (* a caller issues a request (_send_request) *)
 | CRecv (pkttype id : Z) (payload : bytes)   (* a well-framed packet arrives *)
 | CBadFrame                              (* a packet too short to hold type and id *)
-| CEof.                                  (* the channel ends *)
+| CEof                                   (* the channel ends *)
+| CCancel (w : Z).                       (* the task awaiting request w is cancelled *)
 
 Inductive cout : Type :=
 | OSent (w id : Z)                        (* request of waiter w went out with this id *)
 | ORefused (w : Z)                        (* SFTPNoConnection raised to the caller *)
 | ODeliver (w pkttype id : Z) (payload : bytes)   (* waiter w's future resolved with this reply *)
-| OFail (w : Z) (e : err).                (* waiter w's future failed (session error) *)
+| OFail (w : Z) (e : err)                 (* waiter w's future failed (session error) *)
+| OCancelled (w : Z).                     (* waiter w's caller got CancelledError *)
 
 Fixpoint dict_pop (d : list (Z * Z)) (k : Z) : option (Z * list (Z * Z)) :=
   match d with
@@ -608,8 +611,14 @@ Fixpoint dict_set (d : list (Z * Z)) (k w : Z) : list (Z * Z) :=
   | (k', w') :: r => if k' =? k then (k, w) :: r else (k', w') :: dict_set r k w
   end.
 
+Definition memz (x : Z) (l : list Z) : bool := existsb (Z.eqb x) l.
+Fixpoint removez (x : Z) (l : list Z) : list Z :=
+  match l with [] => [] | y :: r => if x =? y then removez x r else y :: removez x r end.
+
+(* _cleanup: every waiter that was not cancelled gets the exception *)
 Definition c_cleanup (s : cstate) (e : err) : cstate * list cout :=
-  (mkc (c_next s) (c_count s) [] false, map (fun kw => OFail (snd kw) e) (c_reqs s)).
+  (mkc (c_next s) (c_count s) [] false [],
+   map (fun kw => OFail (snd kw) e) (filter (fun kw => negb (memz (snd kw) (c_cancelled s))) (c_reqs s))).
 
 Definition FX_CONNECTION_LOST := 7.
 Definition FX_NO_CONNECTION := 6.
@@ -619,17 +628,24 @@ Definition c_step (s : cstate) (e : cev) : cstate * list cout :=
   | CSend =>
       let id := c_next s in
       let w := c_count s in
-      let s' := mkc ((id + 1) mod TWO32) (w + 1) (dict_set (c_reqs s) id w) (c_open s) in
+      let s' := mkc ((id + 1) mod TWO32) (w + 1) (dict_set (c_reqs s) id w) (c_open s) (c_cancelled s) in
       (s', [if c_open s then OSent w id else ORefused w])
   | CRecv ty id p =>
       if c_open s then
         match dict_pop (c_reqs s) id with
-        | Some (w, rest) => (mkc (c_next s) (c_count s) rest true, [ODeliver w ty id p])
+        | Some (w, rest) =>
+            (* the entry of a cancelled waiter is still there: its late reply is dropped, not an error *)
+            if memz w (c_cancelled s) then (mkc (c_next s) (c_count s) rest true (removez w (c_cancelled s)), [])
+            else (mkc (c_next s) (c_count s) rest true (c_cancelled s), [ODeliver w ty id p])
         | None => c_cleanup s (ESftp FX_BAD_MESSAGE)
         end
       else (s, [])
   | CBadFrame => if c_open s then c_cleanup s (ESftp FX_BAD_MESSAGE) else (s, [])
   | CEof => if c_open s then c_cleanup s (ESftp FX_CONNECTION_LOST) else (s, [])
+  | CCancel w =>
+      if c_open s && memz w (map snd (c_reqs s)) && negb (memz w (c_cancelled s))
+      then (mkc (c_next s) (c_count s) (c_reqs s) true (w :: c_cancelled s), [OCancelled w])
+      else (s, [])
   end.
 
 Fixpoint c_run (s : cstate) (evs : list cev) : cstate * list cout :=
